@@ -40,6 +40,9 @@ STACKS = [
     # an idle connection expires at the next checkout: its close() is one more interruption point
     ("pooled", [("mc1", 11211)], {"max_pool_size": 1, "pool_idle_timeout": 5}),
     ("pooled", [("mc1", 11211)], {"max_pool_size": 2, "pool_idle_timeout": 5}),
+    # TLS: the connection is used (and shut down) through the wrapper
+    ("client", [("mc1", 11211)], {"tls": True}),
+    ("pooled", [("mc1", 11211)], {"tls": True, "max_pool_size": 1}),
     # servers given as UNIX socket paths (self.server is a str, not a (host, port) pair, in every handler)
     ("client", ["/var/run/memcached/mc.sock"], {}),
     ("pooled", ["/var/run/memcached/mc.sock"], {"max_pool_size": 1, "ignore_exc": True}),
